@@ -22,15 +22,17 @@ static void phase(long ridx, TriggerVariable& tv, bool starts_active, uint64_t& 
     int n_trgw = static_cast<int>(rng.range(1, 3));
     int finisher = static_cast<int>(rng.below(3));  // 0 trigger, 1 reset, 2 trigger then reset
     int act_delay = static_cast<int>(rng.below(5)), fin_delay = static_cast<int>(rng.below(6));
-    std::vector<int> forms;
+    std::vector<int> forms, gates;
     for (int i = 0; i < n_actw + n_trgw; i++) forms.push_back(static_cast<int>(rng.below(3)));  // 0 untimed, 1 timed short, 2 timed long
+    // how a trigger waiter learns that the variable is activated: 0 activate() has returned, 1 it polled isActive(), 2 its own waitActivation() returned
+    for (int i = 0; i < n_trgw; i++) gates.push_back(static_cast<int>(rng.below(3)));
     std::string pj = "{\"starts_active\":" + std::to_string(starts_active) + ",\"activation_waiters\":" + std::to_string(n_actw) + ",\"trigger_waiters\":" +
-        std::to_string(n_trgw) + ",\"finisher\":" + std::to_string(finisher) + ",\"forms\":" + vrf::jnums(forms) + ",\"act_delay\":" + std::to_string(act_delay) +
+        std::to_string(n_trgw) + ",\"finisher\":" + std::to_string(finisher) + ",\"forms\":" + vrf::jnums(forms) + ",\"gates\":" + vrf::jnums(gates) + ",\"act_delay\":" + std::to_string(act_delay) +
         ",\"fin_delay\":" + std::to_string(fin_delay) + "}";
     R.program(pj);
     Stamps st;
     std::atomic<uint64_t> cvw{0}, timed_false{0};
-    std::atomic<int> actw_done{0};
+    std::atomic<int> actw_done{0}, gate_passed{0};
     static const int durs_ms[] = {0, 0, 1, 50};
     if (starts_active) {
         st.act_call.store(1);
@@ -74,8 +76,12 @@ static void phase(long ridx, TriggerVariable& tv, bool starts_active, uint64_t& 
         R.spawn([&, i] {
             uint64_t before = vrf::stats().cv_waits;
             int form = forms[static_cast<size_t>(n_actw + i)];
-            // wait() is specified on an activated variable: first wait until activation has completed
-            vrf::spin_until([&] { return st.act_ret.load(std::memory_order_relaxed) != 0; });
+            // wait() is specified on an activated variable: the waiter first learns (in one of three ways) that it is activated
+            int gate = gates[static_cast<size_t>(i)];
+            if (gate == 0) vrf::spin_until([&] { return st.act_ret.load(std::memory_order_relaxed) != 0; });
+            else if (gate == 1) vrf::spin_until([&] { return tv.isActive(); });
+            else tv.waitActivation();
+            gate_passed.fetch_add(1, std::memory_order_relaxed);
             uint64_t call = vrf::now();
             bool ok = true;
             if (form == 0) ok = tv.wait();
@@ -110,6 +116,9 @@ static void phase(long ridx, TriggerVariable& tv, bool starts_active, uint64_t& 
             // a waiter that starts waiting for activation after the reset would (rightly) wait for the next activation:
             // the reset is issued only once the activation waiters of this cycle are through
             vrf::spin_until([&] { return actw_done.load(std::memory_order_relaxed) == n_actw; });
+            // likewise a trigger waiter that has not yet seen the variable active (polling isActive / in waitActivation) would,
+            // after the reset, rightly wait for the next activation
+            vrf::spin_until([&] { return gate_passed.load(std::memory_order_relaxed) == n_trgw; });
             st.reset_call.store(vrf::now(), std::memory_order_relaxed);
             tv.reset();
             st.reset_ret.store(vrf::now(), std::memory_order_relaxed);
